@@ -36,6 +36,7 @@ package asp
 //@   opt panics=allowed
 //@   opt permutation=multiset
 //@   callsite (scope).Assert frozen_lists_are_accepted [C18]: contains(arg_msg, "seq must be a list") && listlike(args[0]) ==> arg_condition
+//@   ensures a_new_list [C16 C17]: fresh(result)
 //@ func reversed
 //@   property C16 C17
 //@   modifies heap
@@ -43,6 +44,7 @@ package asp
 //@   opt panics=allowed
 //@   opt permutation=multiset
 //@   callsite (scope).Assert frozen_lists_are_accepted [C18]: contains(arg_msg, "irreversible type") && listlike(args[0]) ==> arg_condition
+//@   ensures a_new_list [C16 C17]: fresh(result)
 
 // ---------------------------------------------------------------------------------------------
 // Frozen lists are lists (C18)
@@ -56,6 +58,7 @@ package asp
 //@   ensures exactly_the_listlike [C18]: result1 == listlike(obj)
 //@   ensures items_of_a_list [C18]: dyntype(obj, pyList) ==> result0 == unbox(obj, pyList)
 //@   ensures items_of_a_frozen_list [C18]: dyntype(obj, pyFrozenList) ==> result0 == unbox(obj, pyFrozenList).pyList
+//@   ensures nothing_otherwise: !listlike(obj) ==> len(result0) == 0
 //@ func filter
 //@   opt nopanic=off
 //@   opt panics=allowed
@@ -105,11 +108,18 @@ package asp
 //@   opt precall=off
 //@   opt permutation=multiset
 //@   callsite (scope).Assert frozen_lists_are_accepted [C18]: contains(arg_msg, "seq must be a list") && listlike(args[0]) ==> arg_condition
+//@ spec items(x pyObject) pyList = ite(dyntype(x, pyList), unbox(x, pyList), unbox(x, pyFrozenList).pyList)
+//@ assume func (scope).Assert
+//@   modifies nothing
+//@   ensures holds: condition
 //@ func zip
-//@   opt nopanic=off
-//@   opt panics=allowed
+//@   property C18
 //@   opt inline=off
 //@   opt precall=off
+//@   invariant "loop#1" same_length: lastLen >= 0 && (forall k int :: 0 <= k && k < idx ==> listlike(args[k]) && len(items(args[k])) == lastLen)
+//@   invariant "loop#2" rows: len(ret) == lastLen && (forall k int :: 0 <= k && k < len(args) ==> listlike(args[k]) && len(items(args[k])) == lastLen)
+//@   invariant "loop#3" cells: len(r) == len(args) && len(ret) == lastLen && 0 <= i && i < lastLen && \
+//@      (forall k int :: 0 <= k && k < len(args) ==> listlike(args[k]) && len(items(args[k])) == lastLen)
 //@   callsite (scope).Assert frozen_lists_are_accepted [C18]: contains(arg_msg, "must be lists") && listlike(seq) ==> arg_condition
 
 // Equality (==, !=): reflect.DeepEqual distinguishes a frozen list/dict from an ordinary one with the same
@@ -359,3 +369,23 @@ package asp
 //@      len(unbox(result, pyList)) == len(l) + len(ite(dyntype(operand, pyList), unbox(operand, pyList), unbox(operand, pyFrozenList).pyList)) && \
 //@      (forall i int :: 0 <= i && i < len(l) ==> unbox(result, pyList)[i] == l[i])
 //@   ensures comparison_goes_through_asList [C18]: operator == LessThan ==> called("asList")
+
+// Operator precedence follows Python's: or < and < not < comparisons (0) < | < +,- < *,/,//,% < unary minus.
+//@ func (Operator).Precedence
+//@   modifies nothing
+//@   ensures python_order [C16]: \
+//@      (o == Or ==> result == -3) && (o == And ==> result == -2) && (o == Not ==> result == -1) && \
+//@      (o == Union ==> result == 1) && (o == Add || o == Subtract ==> result == 2) && \
+//@      (o == Multiply || o == Divide || o == FloorDivide || o == Modulo ==> result == 3) && (o == Negate ==> result == 4) && \
+//@      (o == Equal || o == NotEqual || o == LessThan || o == GreaterThan || o == In || o == NotIn || o == Is || o == IsNot ==> result == 0)
+//@   ensures unary_minus_binds_tightest [C16]: o != Negate ==> result < 4
+
+// Integer % follows Python: the result has the sign of the divisor (0 <= r < o for o > 0, o < r <= 0 for o < 0)
+// and differs from the dividend by a multiple of the divisor.
+//@ func (pyInt).Operator
+//@   opt nopanic=off
+//@   opt panics=allowed
+//@   opt inline=off
+//@   ensures modulo_has_the_sign_of_the_divisor [C16]: operator == Modulo && dyntype(operand, pyInt) ==> dyntype(result, pyInt) && \
+//@      (unbox(operand, pyInt) > 0 ==> 0 <= unbox(result, pyInt) && unbox(result, pyInt) < unbox(operand, pyInt)) && \
+//@      (unbox(operand, pyInt) < 0 ==> unbox(operand, pyInt) < unbox(result, pyInt) && unbox(result, pyInt) <= 0)
